@@ -54,7 +54,18 @@ def main():
     ctx.tick('build synced')
     ctx.compile_props(getattr(mod, "ALLOWED_AXIOMS", frozenset()))
     ctx.tick('props compiled')
-    mod.run(ctx)
+    try:
+        mod.run(ctx)
+    except SystemExit:
+        raise
+    except BaseException as e:  # the implementation (or the driver) raised where the check expected a value
+        import traceback
+        tb = traceback.format_exc()
+        in_impl = lib.REPO in tb
+        ctx.violation({"exception": repr(e), "traceback": tb.splitlines()[-25:]},
+                      ("the implementation raised " if in_impl else "the check's driver raised ") + repr(e) +
+                      " while the check was running (see traceback in the replay file)", has_input=False)
+        ctx.broken.append("check run aborted by " + repr(e))
     ctx.tick('run done')
     # a theorem / translator obligation / correspondence no longer checks but no concrete failing input
     # was found: second, larger search (the PRNG has advanced, so these are new cases; checks that
